@@ -1,8 +1,46 @@
 """C11 — see DESIGN.md section 6."""
 from kv_engine import *
+import fmt_engine
 
 MODULE = "Feox.Props.C11"
 THEOREMS = ['Feox.C11.get_never_after', 'Feox.C11.range_never_after', 'Feox.C11.cas_never_after', 'Feox.C11.update_ttl_never_after', 'Feox.C11.patch_never_after', 'Feox.C11.incr_reinitialises', 'Feox.C11.get_never_before', 'Feox.C11.sweep_never_before', 'Feox.C11.survives_restart', 'Feox.C11.restart_drops_expired', 'Feox.C11.expiry_arith', 'Feox.C11.ttl_only_update_keeps_value']
+
+
+def image_stage(ctx, cov):
+    """no resurrection at image level: devices holding two generations of a key (newer/older,
+    below/above, expired/live/no expiry at recovery time) are recovered by the real store and by
+    the Lean reader; an older generation surfacing where the reader says absent is the violation"""
+    ok, out = cargo_build(ctx, ["fmt"])
+    if not ok:
+        return
+    outs = fmt_engine.run_fmt(ctx, ["dupgen"], 6, ["workloads=%d" % (4 if ctx.tier == "quick" else 60), "mutations=8"])
+    n = bad = 0
+    for o in outs:
+        if "crash" in o:
+            violation(ctx, "fmt harness (multi-generation images) did not finish: " + o["crash"], o["crash"], tag="crash")
+            continue
+        for op, im, mo in zip(o["ops"], o["impl"], o["model"]):
+            if "dev" not in op or not op.startswith("fmt recover"):
+                continue
+            n += 1
+            if im != mo:
+                bad += 1
+                if bad <= 2:
+                    kept = fmt_engine.save_case(ctx, op, "dupgen%d" % bad)
+                    import re
+                    keys = lambda l: {t.split(":")[0]: t for t in (re.search(r"live=\[([^\]]*)\]", l).group(1).split(",") if re.search(r"live=\[([^\]]*)\]", l) else []) if t}
+                    ki, km = keys(im), keys(mo)
+                    extra = [k for k in ki if k not in km]
+                    older = [k for k in ki if k in km and ki[k] != km[k]]
+                    if extra or older:
+                        violation(ctx, "recovery of a device with two generations of a key returns %s although the newest generation of that key on the device says otherwise (Lean reader: %s)" % (
+                            "key %s" % extra[0] if extra else "generation %s" % ki[older[0]], "absent" if extra else km[older[0]]),
+                            "# image (as it was before the open): see the path in the line below\n%s\n# implementation: %s\n# Lean reader   : %s\n" % (kept, im[:600], mo[:600]), tag="dupgen")
+                    else:
+                        violation(ctx, "correspondence: the real recovery and the Lean reader disagree on a multi-generation image", "%s\n# implementation: %s\n# Lean reader   : %s\n" % (kept, im[:600], mo[:600]), no_input=True, tag="dupgen")
+    ctx.log("image stage: %d multi-generation images, %d differences" % (n, bad))
+    cov["multi_generation_images"] = n
+    cov["multi_generation_image_differences"] = bad
 
 
 def run(ctx):
@@ -10,4 +48,5 @@ def run(ctx):
         "the reference map is Lean Feox.Kv.Spec; its agreement with the real store is differential testing over the generated sequences",
         "json-patch/serde_json results, the wall clock and the key->clock-shard hash are inputs of the model (recorded per call by the harness)",
         "disk reads are assumed faithful here (C05/C10 cover the bytes); concurrency is outside this engine (Conc engine)",
-    ])
+        "no resurrection on crash images: multi-generation images are built by copying a real record to a free block with another timestamp / expiry and re-stamping its token; the Lean reader Feox.Fmt.recoverImage is the reference",
+    ], pre_finish=image_stage)
